@@ -41,7 +41,7 @@ Proof. vm_compute. reflexivity. Qed.
    The same for the REGENERATED decoder bodies themselves (Gen/PyFuncs.v under Model/Py.v), on EVERY byte string: the decoder returns a
    value — it neither raises nor runs out of fuel — with fuel len(data) + 3 (one unit per loop iteration / call): work proportional to
    the buffer whatever the bytes, and the result is spelled out (the successive 16- / 8-byte pieces of the announced part). *)
-From Coq Require Import ZArith List.
+From Coq Require Import ZArith List Lia.
 From PS Require Import Model.Py Proofs.PyLemmas Proofs.PyParsers Proofs.PyTotal Proofs.PyTotal2 Proofs.PyParsersRES Proofs.PyTotal3 Gen.Tables Gen.PyFuncs.
 Import ListNotations.
 
@@ -114,4 +114,26 @@ Proof.
   intros data. split.
   - rewrite (getlbastatus_total data (length data + 3) (le_n _)). discriminate.
   - rewrite (read_keys_total data (length data + 3) (le_n _)). discriminate.
+Qed.
+
+(* all the loop-carrying decoders treated above, in one statement: on EVERY byte string, with fuel 2 len(data) + 4 (one unit per loop
+   iteration or call), each returns a value — none raises, none runs out of fuel *)
+Theorem C11_py_loop_decoders_return_on_every_input : forall (data : bytes),
+  let f := (2 * length data + 4)%nat in
+  (exists v, call_fun all_tables py_program f GLS [PBytes data] = Ok v) /\
+  (exists v, call_fun all_tables py_program f PRK [PBytes data] = Ok v) /\
+  (exists v, call_fun all_tables py_program f RL [PBytes data] = Ok v) /\
+  (exists v, call_fun all_tables py_program f RPRI [PBytes data] = Ok v) /\
+  (exists v, call_fun all_tables py_program f RTPG [PBytes data] = Ok v) /\
+  (exists v, call_fun all_tables py_program f RES [PBytes data] = Ok v).
+Proof.
+  intros data f. unfold f.
+  assert (H3 : (length data + 3 <= 2 * length data + 4)%nat) by (clear; generalize (length data); intros n; Lia.lia).
+  repeat split.
+  - eexists. exact (getlbastatus_total data _ H3).
+  - eexists. exact (read_keys_total data _ H3).
+  - eexists. exact (reportluns_total data _ H3).
+  - eexists. exact (reportpriority_total data _ H3).
+  - eexists. exact (rtpg_total data _ (le_n _)).
+  - exact (readelementstatus_total data _ (le_n _)).
 Qed.
